@@ -17,6 +17,12 @@ type State struct {
 	ghost  map[string]*Term
 	alloc  *Term
 	ret    []*Term // return values (flow == Return)
+	tmpl   *tmplInfo // non-nil: template state used to define a spec function (heap reads become parameters)
+}
+
+type tmplInfo struct {
+	names []string
+	vars  map[string]*Term
 }
 
 func (st *State) clone() *State {
@@ -94,9 +100,11 @@ type FnCtx struct {
 	frames   []*frame // closure execution frames
 	sweep    bool     // zero-annotation mode: no post/inv obligations
 	specDepth int
+	specDefs map[string]*specDef
 	trustedUsed map[string]bool
 	assumptionsUsed map[string]bool
 	quantN int
+	qdepth int
 	log *writeLog
 	dry int
 	allowGlobalWrite bool
@@ -116,6 +124,14 @@ type frame struct {
 type Closure struct {
 	Lit *ast.FuncLit
 	Fn  *ast.FuncDecl // for method values / named functions (unused)
+}
+
+type specDef struct {
+	heapNames []string
+	heapSorts []string
+	name      string
+	resSort   string
+	resType   types.Type
 }
 
 type unsupported struct{ msg string }
@@ -199,8 +215,14 @@ func (c *FnCtx) render(o *Obligation) string {
 	sb.WriteString("; obligation " + o.Name + fmt.Sprintf(" (instance %d)\n", o.Inst))
 	sb.WriteString("; " + strings.ReplaceAll(o.Detail, "\n", " ") + "\n")
 	var body strings.Builder
+	seenA := map[string]bool{}
 	for _, a := range o.Assume {
-		body.WriteString("(assert " + a.String() + ")\n")
+		as := a.String()
+		if seenA[as] {
+			continue
+		}
+		seenA[as] = true
+		body.WriteString("(assert " + as + ")\n")
 	}
 	if o.Cover {
 		body.WriteString("(assert " + o.Goal.String() + ")\n")
@@ -220,10 +242,18 @@ func (c *FnCtx) heapArr(st *State, name, valSort string) *Term {
 	if t, ok := st.heap[name]; ok {
 		return t
 	}
+	if st.tmpl != nil {
+		v := leaf("h$"+sanitize(name), arraySort(SInt, valSort))
+		st.tmpl.names = append(st.tmpl.names, name)
+		st.tmpl.vars[name] = v
+		st.heap[name] = v
+		return v
+	}
 	// initial heap constant, shared by all states of this function
 	cn := sanitize(name) + "!0"
 	c.smt.declare(cn, fmt.Sprintf("(declare-const %s %s)", cn, arraySort(SInt, valSort)))
 	t := leaf(cn, arraySort(SInt, valSort))
+	c.nilMapEmpty(name, t, valSort)
 	// the pre-state must see the same initial value
 	if c.pre != nil {
 		if _, ok := c.pre.heap[name]; !ok {
@@ -264,10 +294,19 @@ func (c *FnCtx) heapHavoc(st *State, name, valSort string) {
 		c.log.whole[name] = true
 	}
 	fc := c.smt.freshConst(name, arr.Sort)
+	c.nilMapEmpty(name, fc, valSort)
 	if g := st.guard(); !isLit(g, "true") {
 		st.pc = append(st.pc, mkImplies(mkNot(g), mkEq(fc, arr)))
 	}
 	st.heap[name] = fc
+}
+
+// nilMapEmpty: in every version of a map-domain heap the nil map (reference 0) has no keys.
+func (c *FnCtx) nilMapEmpty(name string, arr *Term, valSort string) {
+	if !strings.HasPrefix(name, "MD_") {
+		return
+	}
+	c.smt.axiom("nilmap:"+arr.Op, fmt.Sprintf("(= (select %s 0) ((as const %s) false))", arr.Op, valSort), false, arr.Op)
 }
 
 // global variables live in the heap map under "G:<pkg>.<name>" as plain values (not arrays).
@@ -275,6 +314,13 @@ func (c *FnCtx) globalRead(st *State, v *types.Var) *Term {
 	name := "G:" + shortPkg(v.Pkg()) + "." + v.Name()
 	if t, ok := st.heap[name]; ok {
 		return t
+	}
+	if st.tmpl != nil {
+		tv := leaf("h$"+sanitize(name), c.ts.sortOf(v.Type())).withGo(v.Type())
+		st.tmpl.names = append(st.tmpl.names, name)
+		st.tmpl.vars[name] = tv
+		st.heap[name] = tv
+		return tv
 	}
 	cn := sanitize(name) + "!0"
 	srt := c.ts.sortOf(v.Type())
@@ -286,6 +332,7 @@ func (c *FnCtx) globalRead(st *State, v *types.Var) *Term {
 		}
 	}
 	st.heap[name] = t
+	c.groundFacts(v, t)
 	return t
 }
 
